@@ -1,38 +1,43 @@
 (* Hand-written glue: conversions between OCaml ints/strings and the extracted Coq numbers. *)
-open Model
+open BinNums
+open Datatypes
+module L = Stdlib.List
+
+(* each ops_*.ml appends its registration function here at module initialisation *)
+let registrars : ((string -> (string list -> string) -> unit) -> unit) list ref = ref []
 
 let rec pos_of_int (n : int) : positive =
-  if n <= 1 then XH
-  else if n land 1 = 0 then XO (pos_of_int (n lsr 1))
-  else XI (pos_of_int (n lsr 1))
+  if n <= 1 then Coq_xH
+  else if n land 1 = 0 then Coq_xO (pos_of_int (n lsr 1))
+  else Coq_xI (pos_of_int (n lsr 1))
 
-let z_of_int (n : int) : z =
+let z_of_int (n : int) : coq_Z =
   if n = 0 then Z0 else if n > 0 then Zpos (pos_of_int n) else Zneg (pos_of_int (- n))
 
 let rec int_of_pos (p : positive) : int =
-  match p with XH -> 1 | XO q -> 2 * int_of_pos q | XI q -> 2 * int_of_pos q + 1
+  match p with Coq_xH -> 1 | Coq_xO q -> 2 * int_of_pos q | Coq_xI q -> 2 * int_of_pos q + 1
 
-let int_of_z (x : z) : int =
+let int_of_z (x : coq_Z) : int =
   match x with Z0 -> 0 | Zpos p -> int_of_pos p | Zneg p -> - (int_of_pos p)
 
 let rec nat_of_int (n : int) : nat = if n <= 0 then O else S (nat_of_int (n - 1))
 let rec int_of_nat (n : nat) : int = match n with O -> 0 | S k -> 1 + int_of_nat k
 
-let n_of_int (n : int) : n = if n = 0 then N0 else Npos (pos_of_int n)
-let int_of_n (x : n) : int = match x with N0 -> 0 | Npos p -> int_of_pos p
+let n_of_int (k : int) : coq_N = if k = 0 then N0 else Npos (pos_of_int k)
+let int_of_n (x : coq_N) : int = match x with N0 -> 0 | Npos p -> int_of_pos p
 
-(* "1,2,-3" <-> z list ; "" or "-" = empty *)
-let zlist_of_string (s : string) : z list =
+(* "1,2,-3" <-> coq_Z list ; "" or "-" = empty *)
+let zlist_of_string (s : string) : coq_Z list =
   if s = "" || s = "_" then []
-  else List.map (fun t -> z_of_int (int_of_string t)) (String.split_on_char ',' s)
+  else L.map (fun t -> z_of_int (int_of_string t)) (String.split_on_char ',' s)
 
-let string_of_zlist (l : z list) : string =
+let string_of_zlist (l : coq_Z list) : string =
   if l = [] then "_" else
   let b = Buffer.create 256 in
-  List.iteri (fun i x -> if i > 0 then Buffer.add_char b ','; Buffer.add_string b (string_of_int (int_of_z x))) l;
+  L.iteri (fun i x -> if i > 0 then Buffer.add_char b ','; Buffer.add_string b (string_of_int (int_of_z x))) l;
   Buffer.contents b
 
-(* hex <-> byte list (as z list) ; "_" = empty *)
+(* hex <-> byte list (as coq_Z list) ; "_" = empty *)
 let hexval c = match c with
   | '0'..'9' -> Char.code c - 48 | 'a'..'f' -> Char.code c - 87 | 'A'..'F' -> Char.code c - 55
   | _ -> failwith "hex"
@@ -40,7 +45,7 @@ let hexval c = match c with
 (* table of the 256 byte values as z, to avoid re-building them *)
 let ztab = Array.init 256 z_of_int
 
-let bytes_of_hex (s : string) : z list =
+let bytes_of_hex (s : string) : coq_Z list =
   if s = "_" then [] else begin
     let n = String.length s / 2 in
     let r = ref [] in
@@ -48,10 +53,10 @@ let bytes_of_hex (s : string) : z list =
       r := ztab.(hexval s.[2*i] * 16 + hexval s.[2*i+1]) :: !r
     done; !r end
 
-let hex_of_bytes (l : z list) : string =
+let hex_of_bytes (l : coq_Z list) : string =
   if l = [] then "_" else
   let b = Buffer.create 1024 in
-  List.iter (fun x -> Buffer.add_string b (Printf.sprintf "%02x" ((int_of_z x) land 255))) l;
+  L.iter (fun x -> Buffer.add_string b (Printf.sprintf "%02x" ((int_of_z x) land 255))) l;
   Buffer.contents b
 
 let bool_of_string01 s = (s = "1")
